@@ -132,9 +132,12 @@ def _lambert(r0, r1, duration, mu, prograde=True):
 
     # This dichotomy should better be rewritten, with an efficient
     # numpy-friendly implementation
+    z_min = z
     while _F(nr0, nr1, A, z, duration, mu) < 0:
         # z += 0.01
+        z_min = z
         z += 0.05
+    z_max = z
 
     tol = 1e-8
     nmax = 5000
@@ -142,8 +145,16 @@ def _lambert(r0, r1, duration, mu, prograde=True):
 
     for n in range(nmax):
         ratio = _F(nr0, nr1, A, z, duration, mu) / _dF(nr0, nr1, A, z)
+        if z_min < z_max and not z_min <= z - ratio <= z_max:
+            # Newton's step leaves the interval known to contain the
+            # solution (y(z) may be negative out there): bisect instead
+            if ratio > 0:
+                z_max = z
+            else:
+                z_min = z
+            ratio = z - (z_min + z_max) / 2
         z -= ratio
-        if abs(ratio) > tol:
+        if abs(ratio) < tol:
             break
     else:  # pragma: no cover
         log.warning("Max iteration exceeded")
